@@ -393,8 +393,30 @@ def finding_key(cex):
     return f"C07:{cex['shape']['kind']}{':history' if cex['shape'].get('history') else ''}:{cex['obligation'].split('[')[0]}"
 
 
-def selftest(seed):
+def generator_contract():
+    """The `double` shapes stand on a contract for the concrete generators ("the generator installs N canonical unit rows"); the generators
+    themselves are concrete runs with nothing to quantify over (outside the claim).  The contract is re-checked here on a few small real
+    grids on every run; a generator that breaks it makes the run a HARNESS ERROR (exit 2) -- the symbolic result would rest on a false
+    assumption -- not a verdict of the solver."""
+    import contextlib, io
+    import molgri.space.rotobj as RO
     n = 0
+    with contextlib.redirect_stdout(io.StringIO()):
+        for alg, Ns in (("cube4D", (4, 9, 17, 40)), ("randomQ", (5, 20)), ("fulldiv", (8, 40)), ("zero4D", (1,))):
+            for N in Ns:
+                g = RO.SphereGrid4DFactory.create(alg, N)
+                half, full = g.get_grid_as_array(), g.get_grid_as_array(only_upper=False)
+                assert half.shape == (N, 4) and full.shape == (2 * N, 4), (alg, N, "shapes")
+                assert all(_canon_f(list(row)) for row in half), (alg, N, "a row of the half grid is not in the canonical half")
+                assert np.array_equal(full[:N], half) and np.array_equal(full[N:], -half), (alg, N, "the double cover is not [G; -G]")
+                assert np.allclose(np.linalg.norm(half, axis=1), 1.0, atol=1e-8), (alg, N, "rows are not unit quaternions")
+                assert len({tuple(np.round(r, 9)) for r in half}) == N, (alg, N, "rows are not pairwise distinct")
+                n += 1
+    return n
+
+
+def selftest(seed):
+    n = generator_contract()
     for v in itertools.product((-1.0, 0.0, 1.0), repeat=3):
         s = z3.Solver()
         q = [z3.RealVal(str(x)) for x in v]
